@@ -421,9 +421,17 @@ def _det(draw, og):
 
 @recipe("diff", "difference")
 def _diff(draw, og):
-    a = og.array(draw, min_ndim=1)
+    if draw(st.booleans()):
+        a = og.array(draw, min_ndim=1)
+        ax = draw(st.sampled_from(list(range(ndim_of(a))) + [-1]))
+    else:
+        # a longer axis, so that higher-order differences are not empty
+        shape = draw(st.sampled_from([(4,), (5,), (6,), (2, 4), (4, 2), (5, 1), (2, 5)]))
+        a = og.array(draw, shape=shape)
+        ax = max(range(len(shape)), key=lambda i: shape[i])
+        if ax == len(shape) - 1 and draw(st.booleans()):
+            ax = -1
     kw = {}
-    ax = draw(st.sampled_from(list(range(ndim_of(a))) + [-1]))
     if ax != -1 or draw(st.booleans()):
         kw["axis"] = ax
     n = draw(st.sampled_from([1, 1, 2, 0, 3]))
@@ -826,8 +834,10 @@ def spellings_of(rec, args, kw):
         out.append("method")
     if rec.operator and not kw and (first_poly or (len(args) > 1 and isinstance(args[1], numpoly.ndpoly))):
         out.append("operator")
-    if rec.reduce and first_poly and set(kw) <= {"axis", "keepdims"} and not isinstance(kw.get("axis"), tuple):
+    # ufunc.reduce/accumulate default to axis=0 while sum/cumsum default to axis=None by
+    # definition, so these spellings are only comparable with an explicit integer axis
+    if rec.reduce and first_poly and set(kw) <= {"axis", "keepdims"} and isinstance(kw.get("axis"), int):
         out.append("reduce")
-    if rec.accumulate and first_poly and set(kw) <= {"axis"}:
+    if rec.accumulate and first_poly and set(kw) <= {"axis"} and isinstance(kw.get("axis"), int):
         out.append("accumulate")
     return out
